@@ -486,6 +486,7 @@ func runCheck(prop, tier string, verbose, keep bool, only string) int {
 				s.Bound = b
 			}
 			nUnsat, nSat, nUnk := 0, 0, 0
+			moreCE := 0
 			for _, v := range vs {
 				s.Queries++
 				s.SolverTimeS += v.Seconds
@@ -505,6 +506,11 @@ func runCheck(prop, tier string, verbose, keep bool, only string) int {
 						fmt.Printf("INCONCLUSIVE property=%s harness=%s unwinding bound reached: %s\n", prop, res.Name, v.VC.Info)
 						s.Notes = append(s.Notes, "unwinding bound reached: "+v.VC.Info)
 						inconclusive++
+						continue
+					}
+					if nSat > maxReplaysPerObligation {
+						// further counterexamples of the same obligation are counted, not replayed
+						moreCE++
 						continue
 					}
 					dir := filepath.Join(verifDir, "replays", prop, fmt.Sprintf("%s-%s-%d", res.Name, sanitize(label), nSat))
@@ -530,6 +536,9 @@ func runCheck(prop, tier string, verbose, keep bool, only string) int {
 					fmt.Printf("INCONCLUSIVE property=%s harness=%s obligation=%s: solver answered %s after %.0fs\n", prop, res.Name, label, v.Res, v.Seconds)
 					inconclusive++
 				}
+			}
+			if moreCE > 0 {
+				fmt.Printf("  (%d further counterexamples of %s/%s were not replayed)\n", moreCE, res.Name, label)
 			}
 			switch {
 			case nSat > 0:
@@ -642,6 +651,8 @@ func runCheck(prop, tier string, verbose, keep bool, only string) int {
 
 // reachableAll finds, per assertion label, one satisfiable path condition reaching it (vacuity guard).
 // Candidates are tried in parallel, shortest path condition first.
+const maxReplaysPerObligation = 3
+
 func reachableAll(labels []string, byLabel map[string][]*symex.VC, opts symex.DischargeOpts) map[string]bool {
 	out := map[string]bool{}
 	var mu sync.Mutex
